@@ -90,4 +90,12 @@ PROPS = {
                                      "bufanalysis dedup: SHA-256 taken as injective on the concatenated key"],
         "assumptions": ["no check plugins configured (builtin rules only)", "lint options other than allow_comment_ignores at their defaults", "strings are valid UTF-8"],
     },
+    "C17": {
+        "harness": "c17", "protocol": "c17", "level": "proof", "stateful": False,
+        "rule": "Section A: generated images (1-9 files over 1-4 directories, imports shared between directories, WKT imports, import-only and unreachable imports, sometimes unordered/cyclic/with a dependency outside the image) x 3 of the 8 plugin configs (strategy all/directory, include_imports, include_wkt) through the real ImageByDir + ImagesToCodeGeneratorRequests (and bufprotoplugin.Generator with a recording handler); file_to_generate / proto_file (+stripped flag) / source_file_descriptors per request compared with the model. Section B: 1-4 scripted plugin responses (hostile names, insertion points, duplicates, aliasing out directories) applied as bufgen.generateCode does (ValidatePluginResponses, bufprotopluginos.ResponseWriter) in a scratch tree with sentinels; error class / written files compared with the model. Section C: whole bufgen.Generator with the harness re-executed as plugin. A line is non-trivial when there are >=2 requests or include_imports is set (A) / at least one file is written or an error other than a plain path error occurs (B); distinct = distinct protocol lines.",
+        "trusted_base": COMMON_TB + ["protoplugin (request validation, response merging), protobuf-go, protopluginutil.StripSourceRetentionOptions are libraries: only which descriptors are stripped is modelled",
+                                     "image files are valid (ValidateProtoPath: normalised, .proto) with unique paths (NewImage); checked by the harness on every run",
+                                     ".jar/.zip outs, type filters (C12), remote plugins, and disk-level failures of the final flush (C15) are not modelled"],
+        "assumptions": ["strings are valid UTF-8", "response side: generated output names are prefix-free (no name is both a file and a directory)", "no symlinks inside out directories"],
+    },
 }
